@@ -288,10 +288,6 @@ func c06Loop(fn, un *ssa.Function) (bool, string) {
 	if ncall != 1 {
 		return false, fmt.Sprintf("%d calls of unmarshal (expected one, in the loop)", ncall)
 	}
-	rest, ok := call.Common().Args[0].(*ssa.Phi)
-	if !ok || len(rest.Edges) != 2 {
-		return false, "the argument of unmarshal is not the loop-carried remainder"
-	}
 	param := fn.Params[len(fn.Params)-1]
 	var ex0, ex1 *ssa.Extract
 	for _, ref := range *call.Referrers() {
@@ -303,6 +299,21 @@ func c06Loop(fn, un *ssa.Function) (bool, string) {
 				ex1 = ex
 			}
 		}
+	}
+	rest, ok := call.Common().Args[0].(*ssa.Phi)
+	if !ok {
+		// offset form: unmarshal(data[offset:]) with offset = 0, offset += processed, while offset < len(data)
+		hdr, why := offsetFrameLoop(call, param, ex1)
+		if hdr == nil {
+			return false, why
+		}
+		if !c06Appended(ex0, hdr) {
+			return false, "the packet returned by unmarshal is not appended to the loop-carried result list"
+		}
+		return true, "one unmarshal(data[offset:]) per iteration while offset < len(data); its packet is appended to the result list and offset += processed"
+	}
+	if len(rest.Edges) != 2 {
+		return false, "the argument of unmarshal is not the loop-carried remainder"
 	}
 	okInit, okStep := false, false
 	for _, e := range rest.Edges {
@@ -338,7 +349,16 @@ func c06Loop(fn, un *ssa.Function) (bool, string) {
 	if !condOK {
 		return false, "the loop is not controlled by len(rest) != 0"
 	}
-	// the packet of this call is appended to the loop-carried list
+	appOK := c06Appended(ex0, rest.Block())
+	if !appOK {
+		return false, "the packet returned by unmarshal is not appended to the loop-carried result list"
+	}
+	return true, "one unmarshal(rest) per iteration while len(rest) != 0; its packet is appended to the result list and rest = rest[processed:]"
+}
+
+// c06Appended: the packet result ex0 of the unmarshal call is appended to a list carried by a phi of the
+// loop header.
+func c06Appended(ex0 *ssa.Extract, header *ssa.BasicBlock) bool {
 	appOK := false
 	if ex0 != nil {
 		for _, ref := range *ex0.Referrers() {
@@ -366,7 +386,7 @@ func c06Loop(fn, un *ssa.Function) (bool, string) {
 						continue
 					}
 					if bi, ok := ap.Common().Value.(*ssa.Builtin); ok && bi.Name() == "append" {
-						if acc, ok := ap.Common().Args[0].(*ssa.Phi); ok && acc.Block() == rest.Block() {
+						if acc, ok := ap.Common().Args[0].(*ssa.Phi); ok && acc.Block() == header {
 							for _, e := range acc.Edges {
 								if e == ssa.Value(ap) {
 									appOK = true
@@ -378,10 +398,61 @@ func c06Loop(fn, un *ssa.Function) (bool, string) {
 			}
 		}
 	}
-	if !appOK {
-		return false, "the packet returned by unmarshal is not appended to the loop-carried result list"
+	return appOK
+}
+
+// offsetFrameLoop recognises the offset form of the frame loop and returns its header block:
+// the argument of the call is data[offset:] of the datagram parameter, offset is a phi of the header
+// with the edges 0 and offset + processed, and the header leaves the loop exactly when offset < len(data)
+// is false.
+func offsetFrameLoop(call *ssa.Call, param *ssa.Parameter, processed *ssa.Extract) (*ssa.BasicBlock, string) {
+	sl, ok := call.Common().Args[0].(*ssa.Slice)
+	if !ok || sl.X != ssa.Value(param) || sl.High != nil || sl.Max != nil {
+		return nil, "the argument of unmarshal is not the loop-carried remainder"
 	}
-	return true, "one unmarshal(rest) per iteration while len(rest) != 0; its packet is appended to the result list and rest = rest[processed:]"
+	off, ok := sl.Low.(*ssa.Phi)
+	if !ok || len(off.Edges) != 2 || processed == nil {
+		return nil, "the frame offset is not loop-carried"
+	}
+	okInit, okStep := false, false
+	for _, e := range off.Edges {
+		if isConstInt(e, 0) {
+			okInit = true
+		} else if bo, ok := e.(*ssa.BinOp); ok && bo.Op == token.ADD && ((bo.X == ssa.Value(off) && bo.Y == ssa.Value(processed)) || (bo.Y == ssa.Value(off) && bo.X == ssa.Value(processed))) {
+			okStep = true
+		}
+	}
+	if !okInit || !okStep {
+		return nil, "the frame offset is not threaded as offset = 0; offset += processed"
+	}
+	h := off.Block()
+	iff, ok := h.Instrs[len(h.Instrs)-1].(*ssa.If)
+	if !ok {
+		return nil, "the loop is not controlled by offset < len(data)"
+	}
+	cmp, ok := iff.Cond.(*ssa.BinOp)
+	if !ok {
+		return nil, "the loop is not controlled by offset < len(data)"
+	}
+	x, y := cmp.X, cmp.Y
+	switch cmp.Op {
+	case token.LSS:
+	case token.GTR:
+		x, y = y, x
+	default:
+		return nil, "the loop is not controlled by offset < len(data)"
+	}
+	ln, ok := y.(*ssa.Call)
+	if !ok || x != ssa.Value(off) {
+		return nil, "the loop is not controlled by offset < len(data)"
+	}
+	if bi, ok := ln.Common().Value.(*ssa.Builtin); !ok || bi.Name() != "len" || ln.Common().Args[0] != ssa.Value(param) {
+		return nil, "the loop is not controlled by offset < len(data)"
+	}
+	if !iff.Block().Succs[0].Dominates(call.Block()) {
+		return nil, "the loop body is not entered on offset < len(data)"
+	}
+	return h, ""
 }
 
 // c06AON: all-or-nothing.
